@@ -58,6 +58,10 @@ MUTANTS = {
         ('getxattr-count-as-value', S, "            Ok(GetxattrReply::Count(count)) => {\n                let out = GetxattrOut {\n                    size: count,", "            Ok(GetxattrReply::Count(count)) => {\n                let out = GetxattrOut {\n                    size: count + 1,"),
     ],
     'C04': [
+        ('split-at-absolute-offset', T, "other.push_front(front.offset(rem).map_err(Error::VolatileMemoryError)?);", "other.push_front(front.offset(offset).map_err(Error::VolatileMemoryError)?);"),
+        ('split-at-short-head', T, ".push_back(front.subslice(0, rem).map_err(Error::VolatileMemoryError)?);", ".push_back(front.subslice(0, rem - 1).map_err(Error::VolatileMemoryError)?);"),
+        ('allocate-offers-whole-buffer', T, "FileVolatileSlice::from_volatile_slice(&buf.subslice(0, rem).unwrap())", "FileVolatileSlice::from_volatile_slice(buf)"),
+        ('vwriter-space-check-inverted', 'src/transport/virtiofs/mod.rs', "        if len > self.available_bytes() {", "        if len < self.available_bytes() {"),
         ('mark-used-forgets-counter', T, "        self.bytes_consumed = total_bytes_consumed;\n", ""),
         ('mark-used-offset-zero', T, "                self.buffers.push_front(buf.offset(rem).unwrap());", "                self.buffers.push_front(buf.offset(0).unwrap());"),
         ('available-is-capacity', FD, "        self.buf.capacity() - self.buf.len()\n", "        self.buf.capacity()\n"),
@@ -71,6 +75,14 @@ MUTANTS = {
         ('restricted-open-follows-links', P, "        let flags = libc::O_NOFOLLOW | libc::O_CLOEXEC | flags;", "        let flags = libc::O_CLOEXEC | flags;"),
         ('safe-inode-includes-symlinks', 'src/passthrough/util.rs', "    matches!(mode & libc::S_IFMT, libc::S_IFREG | libc::S_IFDIR)", "    matches!(mode & libc::S_IFMT, libc::S_IFREG | libc::S_IFDIR | libc::S_IFLNK)"),
         ('pt-lookup-no-slash-check', 'src/passthrough/sync_io.rs', "        if name.to_bytes_with_nul().contains(&SLASH_ASCII) {\n            return Err(einval());\n        }\n        self.do_lookup(parent, name)", "        self.do_lookup(parent, name)"),
+    ],
+    'C17': [
+        ('consume-for-write-no-mark', 'src/transport/virtiofs/mod.rs', "self.consume(true, count, f)", "self.consume(false, count, f)"),
+        ('consume-marks-count', 'src/transport/mod.rs', "self.mark_dirty(bytes_consumed);", "self.mark_dirty(count);"),
+        ('consume-for-read-marks', 'src/transport/mod.rs', "self.consume(false, count, f)", "self.consume(true, count, f)"),
+        ('mark-dirty-wrong-offset', 'src/transport/mod.rs', "local_buf.bitmap().mark_dirty(0, local_buf.len());", "local_buf.bitmap().mark_dirty(1, local_buf.len());"),
+        ('write-from-bypasses-marking', 'src/transport/virtiofs/mod.rs', ".consume_for_write(count, |bufs| src.read_vectored_volatile(bufs))", ".consume_for_read(count, |bufs| src.read_vectored_volatile(bufs))"),
+        ('read-to-marks', 'src/transport/mod.rs', ".consume_for_read(count, |bufs| dst.write_vectored_volatile(bufs))", ".consume_for_write(count, |bufs| dst.write_vectored_volatile(bufs))"),
     ],
     'C06x': [],
     'C07': [
